@@ -29,9 +29,29 @@ inductive Op (α : Type) : Nat → Nat → Type where
       Op α (maskSel rmask).length (maskSel cmask).length
   | interp {n n' K K' nb nb' : Nat} (base : Op α nb nb') (lidx : Fin n → Fin K → Fin nb) (lval : Mat α n K)
       (ridx : Fin n' → Fin K' → Fin nb') (rval : Mat α n' K') : Op α n n'
+  /-- `PermutationLinearOperator(perm, inv_perm)` (well-formed iff `perm ∘ inv_perm = id`, what the constructor validates) -/
+  | perm {n : Nat} (p inv : Fin n → Fin n) : Op α n n
+  /-- `TransposePermutationLinearOperator(m)` -/
+  | transposePerm {m : Nat} : Op α (m * m) (m * m)
+  /-- `CholLinearOperator(R, upper)`; `R` is any sub-operator (a `TriangularLinearOperator` in the library) -/
+  | chol {n : Nat} (r : Op α n n) (upper : Bool) : Op α n n
+  /-- `MulLinearOperator(RootLinearOperator(l), RootLinearOperator(r))` -/
+  | mulRoots {n k k' : Nat} (l : Op α n k) (r : Op α n k') : Op α n n
+  /-- `LowRankRootLinearOperator(a)` (inherits `_matmul`/`_t_matmul` from `RootLinearOperator`) -/
+  | lowRankRoot {n k : Nat} (a : Op α n k) : Op α n n
+  /-- `IdentityLinearOperator(n)` -/
+  | identity {n : Nat} : Op α n n
+  /-- `ConstantDiagLinearOperator(c, diag_shape=n)` -/
+  | constDiag {n : Nat} (c : α) : Op α n n
+  /-- `ZeroLinearOperator(n, m)` -/
+  | zero {n m : Nat} : Op α n m
+  /-- `KernelLinearOperator(x1, x2, covar_func)` with an opaque torch `covar_func`: `K = covar_func(x1, x2)` is what
+  `_matmul` multiplies by (`self.covar_mat @ rhs`), `Kt = covar_func(x2, x1)` is what the transposed operator
+  (`KernelLinearOperator(x2, x1, covar_func)`) multiplies by.  Well-formed iff `covar_func(x2, x1) = covar_func(x1, x2)ᵀ`. -/
+  | kernel {n m : Nat} (K : Mat α n m) (Kt : Mat α m n) : Op α n m
 
 section
-variable [Add α] [Mul α] [Zero α]
+variable [Add α] [Mul α] [Zero α] [One α]
 
 /-- One iteration of the Kronecker loop with the factor given by its multiplication routine `g`
 (`linear_op._matmul` resp. `linear_op._t_matmul`): view `(n, q*c)`, apply `g`, view `(m, q, c)`, transpose, reshape. -/
@@ -42,6 +62,11 @@ def kronStepOp {n m q c : Nat} (g : Mat α n (q * c) → Mat α m (q * c)) (X : 
 /-- first `a` rows / the remaining rows of a matrix with `a + b` rows (`rhs[..., curr_idx:curr_idx+size, :]`). -/
 def topRows {a b c : Nat} (X : Mat α (a + b) c) : Mat α a c := fun i col => X (Fin.castAdd b i) col
 def botRows {a b c : Nat} (X : Mat α (a + b) c) : Mat α b c := fun i col => X (Fin.natAdd a i) col
+
+/-- `MulLinearOperator._matmul` with the dense left root `L` and the right operand given by its `_matmul` routine `g`. -/
+def mulRootsWith {n k c : Nat} (L : Mat α n k) (g : Mat α n (k * c) → Mat α n (k * c)) (X : Mat α n c) : Mat α n c :=
+  let r := g (fun i t => X i (modIdx t) * L i (divIdx t))
+  fun i col => sumFin k fun l => r i (pairIdx l col) * L i l
 
 /-- Structured evaluation of a tree: `(eval t).mm` is the `_matmul` of the outermost class calling the evaluators of
 the sub-trees, `(eval t).tmm` its `_t_matmul`. -/
@@ -79,6 +104,30 @@ def Op.eval : {n m : Nat} → Op α n m → UserOp α n m
   | _, _, .interp base lidx lval ridx rval =>
     ⟨fun X => leftInterp lidx lval (base.eval.mm (leftTInterp ridx rval X)),
      fun Y => leftInterp ridx rval (base.eval.tmm (leftTInterp lidx lval Y))⟩
+  -- `_matmul` gathers with `perm`; `_transpose_nonbatch` = `PermutationLinearOperator(inv_perm, perm, validate_args=False)`
+  | _, _, .perm p inv => ⟨fun X => permMatmul p X, fun Y => permMatmul inv Y⟩
+  -- `_transpose_nonbatch` returns `self`
+  | _, _, .transposePerm => ⟨fun X => transposePermMatmul X, fun Y => transposePermMatmul Y⟩
+  -- `CholLinearOperator._matmul`: `root._t_matmul(root._matmul(rhs))` if `upper` else the inherited
+  -- `root._matmul(root._t_matmul(rhs))`; `_t_matmul` is `RootLinearOperator._t_matmul` = `self._matmul`
+  | _, _, .chol r upper =>
+    ⟨fun X => if upper then r.eval.tmm (r.eval.mm X) else r.eval.mm (r.eval.tmm X),
+     fun X => if upper then r.eval.tmm (r.eval.mm X) else r.eval.mm (r.eval.tmm X)⟩
+  -- `MulLinearOperator._matmul`: `left_root = left.root.to_dense()`; `left_res = rhs.unsqueeze(-2) * left_root.unsqueeze(-1)`
+  -- viewed `(n, rank*m)`; `right_linear_op._matmul(left_res)` (the right operand is a RootLinearOperator: its `_matmul`
+  -- is `root._matmul(root._t_matmul(·))`); view `(n, rank, m)`, `.mul_(left_root.unsqueeze(-1)).sum(-2)`.
+  -- `_transpose_nonbatch` returns `self`.
+  | _, _, .mulRoots l r =>
+    ⟨fun X => mulRootsWith (toDenseDefault l.eval) (fun Z => r.eval.mm (r.eval.tmm Z)) X,
+     fun X => mulRootsWith (toDenseDefault l.eval) (fun Z => r.eval.mm (r.eval.tmm Z)) X⟩
+  | _, _, .lowRankRoot a => ⟨fun X => a.eval.mm (a.eval.tmm X), fun X => a.eval.mm (a.eval.tmm X)⟩
+  -- `IdentityLinearOperator._matmul/_t_matmul` return the (reshaped) rhs
+  | _, _, .identity => ⟨fun X => X, fun Y => Y⟩
+  -- `DiagLinearOperator.matmul`: `diag.unsqueeze(-1) * rhs` with the expanded constant
+  | _, _, .constDiag c => ⟨fun X => diagMatmul (fun _ => c) X, fun Y => diagMatmul (fun _ => c) Y⟩
+  -- `ZeroLinearOperator._matmul/_t_matmul`: `torch.zeros(output_shape)`
+  | _, _, .zero => ⟨fun _ _ _ => 0, fun _ _ _ => 0⟩
+  | _, _, .kernel K Kt => ⟨fun X => Mat.mul K X, fun Y => Mat.mul Kt Y⟩
 
 /-- Dense semantics of a tree. -/
 def Op.denseSem : {n m : Nat} → Op α n m → Mat α n m
@@ -99,6 +148,47 @@ def Op.denseSem : {n m : Nat} → Op α n m → Mat α n m
   | _, _, .catCols a b => LinOp.C01.catCols a.denseSem b.denseSem
   | _, _, .masked a rmask cmask => maskedDense a.denseSem rmask cmask
   | _, _, .interp base lidx lval ridx rval => interpDense base.denseSem lidx lval ridx rval
+  | _, _, .perm p _ => permDense p
+  | _, _, .transposePerm => transposePermDense
+  | _, _, .chol r upper => cholDense r.denseSem upper
+  | _, _, .mulRoots l r => hadamard (rootDense l.denseSem) (rootDense r.denseSem)
+  | _, _, .lowRankRoot a => rootDense a.denseSem
+  | _, _, .identity => Mat.one
+  | _, _, .constDiag c => Mat.diag (fun _ => c)
+  | _, _, .zero => fun _ _ => 0
+  | _, _, .kernel K _ => K
+
+/-- Well-formedness of a tree: the constructor-argument conditions the dense meaning relies on.
+`perm`: `perm[inv_perm] = arange(n)` — exactly what `PermutationLinearOperator.__init__` validates;
+`kernel`: the covariance function satisfies `covar_func(x2, x1) = covar_func(x1, x2)ᵀ`; everything else: the sub-trees. -/
+def Op.WF : {n m : Nat} → Op α n m → Prop
+  | _, _, .perm p inv => ∀ i, p (inv i) = i
+  | _, _, .kernel K Kt => Kt = Mat.transpose K
+  | _, _, .sum a b => a.WF ∧ b.WF
+  | _, _, .matmul a b => a.WF ∧ b.WF
+  | _, _, .constMul a _ => a.WF
+  | _, _, .addedDiag a _ => a.WF
+  | _, _, .root a => a.WF
+  | _, _, .transpose a => a.WF
+  | _, _, .kron a b => a.WF ∧ b.WF
+  | _, _, .blockDiag blocks => ∀ b, (blocks b).WF
+  | _, _, .blockInter blocks => ∀ b, (blocks b).WF
+  | _, _, .sumBatch blocks => ∀ b, (blocks b).WF
+  | _, _, .catRows a b => a.WF ∧ b.WF
+  | _, _, .catCols a b => a.WF ∧ b.WF
+  | _, _, .masked a _ _ => a.WF
+  | _, _, .interp base _ _ _ _ => base.WF
+  | _, _, .chol r _ => r.WF
+  | _, _, .mulRoots l r => l.WF ∧ r.WF
+  | _, _, .lowRankRoot a => a.WF
+  | _, _, _ => True
+
+/-- `LowRankRootAddedDiagLinearOperator(LowRankRoot(a), Diag(d))` and `KroneckerProductAddedDiagLinearOperator(Kronecker(a, b),
+Diag(d))` inherit `_matmul` (addcmul) and `_t_matmul` from `AddedDiagLinearOperator` (the harness checks that the classes
+define neither), so they are the nestings: -/
+def Op.lowRankRootAddedDiag {n k : Nat} (a : Op α n k) (d : Fin n → α) : Op α n n := .addedDiag (.lowRankRoot a) d
+def Op.kronAddedDiag {m p : Nat} (a : Op α m m) (b : Op α p p) (d : Fin (m * p) → α) : Op α (m * p) (m * p) :=
+  .addedDiag (.kron a b) d
 
 /-- number of nested levels (to state non-triviality of examples). -/
 def Op.depth : {n m : Nat} → Op α n m → Nat
@@ -113,10 +203,43 @@ def Op.depth : {n m : Nat} → Op α n m → Nat
   | _, _, .catCols a b => max a.depth b.depth + 1
   | _, _, .masked a _ _ => a.depth + 1
   | _, _, .interp base _ _ _ _ => base.depth + 1
+  | _, _, .chol r _ => r.depth + 1
+  | _, _, .mulRoots l r => max l.depth r.depth + 1
+  | _, _, .lowRankRoot a => a.depth + 1
   | _, _, _ => 1
 
+/-! ### 1-D operands: `Matmul.forward` / `LinearOperator.matmul` promote a 1-D right-hand side with `unsqueeze(-1)`, run the 2-D
+code, and `squeeze(-1)`; `rmatmul` with a 1-D left operand is `self.mT.matmul(other)` (same promotion on the transposed
+operator); with a ≥2-D left operand `self.mT.matmul(other.mT).mT`. -/
+
+/-- `unsqueeze(-1)` of a 1-D tensor. -/
+def colOfVec {n : Nat} (x : Fin n → α) : Mat α n 1 := fun i _ => x i
+/-- `squeeze(-1)` of an `(n, 1)` tensor. -/
+def vecOfCol {n : Nat} (X : Mat α n 1) : Fin n → α := fun i => X i ⟨0, Nat.one_pos⟩
+
+/-- `op @ x`, `x` 1-D. -/
+def matmulVec {n m : Nat} (op : UserOp α n m) (x : Fin m → α) : Fin n → α := vecOfCol (op.mm (colOfVec x))
+/-- `op.mT @ y` / `op._t_matmul(y)`, `y` 1-D. -/
+def tmatmulVec {n m : Nat} (op : UserOp α n m) (y : Fin n → α) : Fin m → α := vecOfCol (op.tmm (colOfVec y))
+
+/-- result shape of `op @ x` (`_matmul_broadcast_shape`; `none` = RuntimeError): operator `(*sA, n, m)`;
+rhs 1-D of length `p` → `(*sA, n)`; rhs `(*sB, p, c)` → `(*broadcast(sA, sB), n, c)`. -/
+def matmulResultShape (sA : List Nat) (n m : Nat) : (rhs : List Nat) → Option (List Nat)
+  | [] => none
+  | [p] => matmulShapeVec sA n m p
+  | rhs => matmulShape sA n m (rhs.take (rhs.length - 2)) (rhs.getD (rhs.length - 2) 0) (rhs.getD (rhs.length - 1) 0)
+
+/-- result shape of `x @ op` (`rmatmul`): 1-D `x` of length `p` → shape of `op.mT @ x`; `x = (*sB, c, p)` → the shape of
+`op.mT @ x.mT` with the last two entries swapped. -/
+def rmatmulResultShape (sA : List Nat) (n m : Nat) : (lhs : List Nat) → Option (List Nat)
+  | [] => none
+  | [p] => matmulShapeVec sA m n p
+  | lhs =>
+    (matmulShape sA m n (lhs.take (lhs.length - 2)) (lhs.getD (lhs.length - 1) 0) (lhs.getD (lhs.length - 2) 0)).map fun s =>
+      s.take (s.length - 2) ++ [s.getD (s.length - 1) 0, s.getD (s.length - 2) 0]
+
 /-- base-class default `to_dense` of the structured tree: multiply the identity through `eval`. -/
-def Op.toDense [One α] {n m : Nat} (t : Op α n m) : Mat α n m := toDenseDefault t.eval
+def Op.toDense {n m : Nat} (t : Op α n m) : Mat α n m := toDenseDefault t.eval
 
 end
 end LinOp.C01
